@@ -190,6 +190,26 @@ Definition wf_operands (o : aop) : bool :=
   | _ => true
   end.
 
+(* the domain of the constructor-level theorems: an alternative is name[:qual][ (op version)]
+   with identifier texts, an entry has at least one alternative *)
+Definition has_more {A} (l : list A) : bool := match l with [] => false | _ => true end.
+Definition relrec_ok (r : relrec) : bool :=
+  plain r && ident_text (rr_name r)
+  && match rr_qual r with Some q => ident_text q | None => true end
+  && match rr_ver r with Some (_, v) => ident_text v | None => true end.
+Definition entry_ok (e : list relrec) : bool := has_more e && forallb relrec_ok e.
+Definition lfield_ok (f : lfield) : bool := forallb entry_ok f.
+(* the eight operations, with operands Entry::from(vec![Relation::new(name, version), ..]) *)
+Definition aop_ok (o : aop) : bool :=
+  match o with
+  | APush e | AInsert _ e | AReplace _ e => entry_ok e && forallb new_only e
+  | ASetVersion _ _ (Some (_, v)) => ident_text v
+  | ASetVersion _ _ None => true
+  | ASetArchqual _ _ q => ident_text q
+  | ARemoveEntry _ | ARemoveRelation _ _ | ADropConstraint _ _ => true
+  | _ => false
+  end.
+
 (* the text between the entries' texts: what an edit may not touch except for separators *)
 Definition substvar_texts (t : rtree) : list str := map text (filter (node_is SUBSTVAR) (children t)).
 
